@@ -1,6 +1,7 @@
 import Abyss.Lemmas.ParseRecL
 import Abyss.Lemmas.ParseHtxL
 import Abyss.Props.C01
+import Abyss.Lemmas.SizedL
 /-!
 # C02 — clean close and reopen preserves the exact map contents (model level)
 
@@ -23,5 +24,40 @@ theorem parse_render {kt : KeyType} {s : Store} (h : Inv kt s) (hr : Renderable 
   refine ⟨{ n := s.n, heads := heads, bits := bits, htxEnd := s.htxEnd, count := s.count, kf := s.kf, vf := s.vf }, ?_, ?_⟩
   · simp only [parse, render, hp, hk, hv]
   · exact ⟨rfl, rfl, rfl, rfl, rfl, hh, hb⟩
+
+/-- **C02 (model level).** After any history of small operations on a fresh map, while the files
+stay below 4 GiB: the files written at close (`render`) are read back by the reader to a state
+that satisfies the invariant and on which EVERY further history gives exactly the answers the
+original state gives — whatever creation parameters are passed at reopen (the reader has none).
+Close/reopen can therefore be interleaved with updates any number of times. -/
+theorem C02_reopen (kt : KeyType) (n : Nat) (hn : 0 < n) (hn2 : n < 2^60) (ops : List Op)
+    (hops : ∀ op ∈ ops, Op.OK kt op ∧ op.Small) (s : Store) (outs : List Out)
+    (hrun : (Store.init n).run kt ops = some (s, outs)) (hk : s.kf.end_ < 2^32) (hv : s.vf.end_ < 2^32)
+    (more : List Op) (hmore : ∀ op ∈ more, Op.OK kt op) :
+    ∃ t, parse kt (render kt s) = some t ∧ Inv kt t ∧ abs t = abs s ∧
+      ∃ s' t' outs', s.run kt more = some (s', outs') ∧ t.run kt more = some (t', outs') := by
+  have hops1 : ∀ op ∈ ops, Op.OK kt op := fun op h => (hops op h).1
+  obtain ⟨hinv0, habs0⟩ := init_inv kt n hn
+  have he : Spec.Equiv (abs (Store.init n)) Spec.empty := by
+    rw [habs0]; exact Spec.Equiv.refl _ Spec.nodup_empty
+  obtain ⟨s1, h1, hinv1, hn1, _⟩ := run_refines ops hinv0 hops1 Spec.empty he
+  rw [hrun] at h1
+  simp only [Option.some.injEq, Prod.mk.injEq] at h1
+  obtain ⟨hs1, _⟩ := h1
+  subst hs1
+  have hinv : Inv kt s := hinv1
+  have hsn : s.n = n := hn1
+  have hsz : s.Sized := run_sized ops hinv0 (init_sized n) hops outs hrun
+  have hr : Renderable kt s := renderable_of_sized hinv hsz hk hv (by rw [hsn]; exact hn2)
+  obtain ⟨t, hp, hsame⟩ := parse_render hinv hr
+  have hinvt : Inv kt t := inv_of_same hinv hsame
+  have habs : abs t = abs s := by
+    obtain ⟨_, _, _, hk', hv', _, _⟩ := hsame
+    simp [Store.abs, hk', hv']
+  have hnd := abs_nodup hinv
+  obtain ⟨s', hs', _, _, _⟩ := run_refines more hinv hmore (abs s) (Spec.Equiv.refl _ hnd)
+  obtain ⟨t', ht', _, _, _⟩ := run_refines more hinvt hmore (abs s)
+    (by rw [habs]; exact Spec.Equiv.refl _ hnd)
+  exact ⟨t, hp, hinvt, habs, s', t', _, hs', ht'⟩
 
 end Abyss
